@@ -86,13 +86,14 @@ def gen(rnd):
         where, silent_only = 'silent-only', a
         kind = rnd.choice(['ram', 'disk', 'columns', 'filter', 'groupby', 'join'])
         names = [a]
+    bare = len(names) == 1 and rnd.random() < 0.6
     if kind == 'ram':
-        final = {'t': 'ram', 'names': names, 'size': None, 'impure': flag}
+        final = {'t': 'ram', 'names': names, 'size': None, 'impure': flag, 'names_as_str': bare}
     elif kind == 'ram-all':
         final = {'t': 'ram', 'names': None, 'size': None, 'impure': flag}
         names = FIELDS + ['id', 'ids']
     elif kind == 'disk':
-        final = {'t': 'disk', 'names': names, 'root': 0, 'impure': flag}
+        final = {'t': 'disk', 'names': names, 'root': 0, 'impure': flag, 'names_as_str': bare}
     elif kind == 'columns':
         final = {'t': 'columns', 'names': names, 'root': 0, 'shard': None}
         flag = False
